@@ -240,6 +240,8 @@ def _cases(draw):
         g = draw(graphs.wf_graphs(spec, max_vars=4, role_pool=(fwd, inv), concepts=[c for c in concepts if not c.startswith('"')] + [None]))
         return {'src': 'built', 'g': g, 'model': spec, 'program': prog}
     j = draw(trees.wf_trees(spec, max_nodes=6, role_pool=(fwd, inv), concepts=concepts, emptyconcept=False))
+    if table['reifications'] and draw(st.booleans()):
+        j = trees.reify_in_tree(draw, j, table, prob=(1, 3))     # collapsible reified nodes written in the text
     case = {'src': 'tree', 'tree': j, 'model': spec, 'program': prog, 'strip': draw(st.integers(0, 3)) == 0}
     if draw(st.integers(0, 3)) == 0:
         vs = interp.node_vars(interp.to_node(j))
